@@ -106,6 +106,7 @@ func main() {
 				sum.Fail("corpus schema rejected: "+cc.Name, cc.Case, err.Error())
 				continue
 			}
+			vh.Current(o, cc.Case)
 			pipe.Watch("corpus " + cc.Name)
 			ts := runAll(r, comp, cc.Case)
 			k := differing(ts)
@@ -120,18 +121,24 @@ func main() {
 		}
 	}
 
-	total := o.Count(500, 30000)
+	total := o.Count(400, 30000)
 	for c := 0; c < total; c++ {
 		f := fmts[r.Pick(len(fmts))]
 		env := pipe.Env{Header: r.Chance(0.5), Trailer: r.Chance(0.5), Ctx: "H1"}
 		var must []string
-		switch r.Pick(4) {
+		switch r.Pick(8) {
 		case 0:
 			must = []string{"identical-decls-anchoring"}
 		case 1:
 			must = []string{"javascript_with_context"}
 		case 2:
 			must = []string{"template", "xpath_dynamic"}
+		case 3, 4:
+			must = []string{"template-dynamic-anchors", "plain"}
+		case 5:
+			must = []string{"js-whitespace"}
+		case 6:
+			must = []string{"js-throw", "js-global-probe"}
 		}
 		var extra []string
 		if env.Header && f.CtxField() != "" && r.Chance(0.5) {
@@ -169,9 +176,8 @@ func main() {
 			kind = "fixture-" + kind
 		}
 		cs := pipe.NewCase(f.Name, schema, in)
-		if feats["external-const"] {
-			cs.Ext = map[string]string{"ext1": "E1"}
-		}
+		cs.Ext = pipe.GenExt(r.Pick)
+		vh.Current(o, cs)
 		pipe.Watch(f.Name)
 		ts := runAll(r, comp, cs)
 		// the own ingester loop with the memo ON must reproduce the public API (validates the loop
@@ -181,7 +187,8 @@ func main() {
 		pipe.Unwatch()
 
 		nontrivial := feats["identical-decls"] || feats["identical-decls-anchoring"] || feats["template"] ||
-			feats["javascript"] || feats["javascript_with_context"]
+			feats["javascript"] || feats["javascript_with_context"] || feats["template-dynamic-anchors"] ||
+			feats["js-whitespace"] || feats["js-throw"] || feats["js-global-probe"]
 		canon, _ := json.Marshal(cs)
 		sum.Count(string(canon), nontrivial)
 		sum.Hist("format:" + f.Name)
@@ -229,11 +236,9 @@ func main() {
 					if !a.Equal(b) {
 						recs, changed = cand, true
 						ts[0], ts[k] = a, b
+						ext := cs.Ext
 						cs = pipe.NewCase(f.Name, schema, cin)
-						cs.Ext = map[string]string(nil)
-						if feats["external-const"] {
-							cs.Ext = map[string]string{"ext1": "E1"}
-						}
+						cs.Ext = ext
 						break
 					}
 				}
@@ -244,6 +249,14 @@ func main() {
 			sum.Fail("transcript under ["+cfgs[k].String()+"] differs from the transcript with everything on (first difference at result "+fmt.Sprint(i)+")",
 				cs, map[string]interface{}{"all_on": runOut{cfgs[0].String(), ts[0]}, "differs": runOut{cfgs[k].String(), ts[k]},
 					"features": strings.Join(feats.Keys(), ",")})
+		}
+		// every declaration behaves as written, under every configuration
+		for k, t := range ts {
+			if bad := pipe.CheckOutputs(feats, cs.Ext, t); len(bad) > 0 {
+				sum.Fail("output relation violated under ["+cfgs[k].String()+"]: "+bad[0], cs,
+					map[string]interface{}{"violations": bad, "transcript": runOut{cfgs[k].String(), t}})
+				break
+			}
 		}
 		if !own.Equal(ts[0]) {
 			sum.Fail("harness ingester loop (memo on) differs from Transform.Read: the built-in ingester no longer is release-read-parse(fresh ParseCtx)-marshal",
